@@ -294,11 +294,16 @@ func (ex *Exec) doAssert(label string, cond *Term, site ssa.Instruction) {
 	case Sat:
 		rec.Result = Sat
 		ex.classifyViolation(rec, neg)
-		// the witness path continues on the violating side if the harness wants the native run to see it;
-		// we continue on the holding side so later obligations are independent
-		// the path continues on the holding side (below), so its own witness satisfies the claim
-		ex.trace = append(ex.trace, TraceEvent{Kind: "assert", Label: label, OK: true})
 		ex.violated = append(ex.violated, rec)
+		// the path continues on the holding side when there is one (so later obligations are
+		// independent and the path's own witness satisfies the claim); otherwise it stops here
+		if rr, _, _ := ex.sol.Check(cond, nil); rr == Unsat {
+			ex.trace = append(ex.trace, TraceEvent{Kind: "assert", Label: label, OK: false})
+			panic(&pathAbort{"stop"})
+		}
+		ex.trace = append(ex.trace, TraceEvent{Kind: "assert", Label: label, OK: true})
+		ex.assume(cond)
+		return
 	default:
 		// cvc5 gave up: a definite unsat from z3 on the same script decides the obligation
 		if x := ex.sol.CrossCheck(neg); x == Unsat {
